@@ -240,9 +240,27 @@ class Index:
 
   def func(self, fq: str) -> Func:
     f = self.find_func(fq)
+    if f is None and '.<locals>.' in fq:
+      f = self._nested_by_role(fq)
     if f is None:
       raise AnalysisError(f'anchor function vanished: {fq}')
     return f
+
+  def _nested_by_role(self, fq: str) -> Optional[Func]:
+    """A nested private helper is anchored by what it does, its name is only a
+    hint: when `<outer>.<locals>.<name>` does not exist, the helper is the only
+    nested function of <outer> - or the only one satisfying the role recorded
+    in NESTED_ROLES for the hint."""
+    outer, _, hint = fq.rpartition('.<locals>.')
+    mod, rest = self._split(outer)
+    if mod is None:
+      return None
+    prefix = rest + '.<locals>.'
+    cands = [g for q, g in mod.funcs.items() if q.startswith(prefix) and '.' not in q[len(prefix):]]
+    role = NESTED_ROLES.get(hint)
+    if role is not None:
+      cands = [g for g in cands if role(g.node)]
+    return cands[0] if len(cands) == 1 else None
 
   def find_func(self, fq: str) -> Optional[Func]:
     mod, rest = self._split(fq)
@@ -504,3 +522,33 @@ def load(root: str = '/repo') -> Index:
 
 def variant(base: Index, overrides: Dict[str, str]) -> Index:
   return Index(base.root, overrides=overrides, base=base)
+
+
+def _calls(node, pred):
+  import ast as _ast
+  for c in _ast.walk(node):
+    if isinstance(c, _ast.Call):
+      f = c.func
+      name = f.attr if isinstance(f, _ast.Attribute) else (f.id if isinstance(f, _ast.Name) else '')
+      if pred(name, c):
+        return True
+  return False
+
+
+def _is_recursive(node):
+  return _calls(node, lambda n, c: n == node.name)
+
+
+# hint name -> role predicate on the helper's FunctionDef (used only when the
+# name itself is gone, e.g. after a rename of the private helper)
+NESTED_ROLES = {
+    '_resolve_typename': lambda n: _calls(n, lambda nm, c: nm == 'class_from_typename'),
+    '_get_key': lambda n: _calls(n, lambda nm, c: nm == 'int') and not _is_recursive(n),
+    '_decode_int_keys': _is_recursive,
+    '_encode_int_keys': _is_recursive,
+    '_choice_index': lambda n: _calls(n, lambda nm, c: nm == 'candidate_index'),
+    '_bind_decisions': _is_recursive,
+    '_transform': _is_recursive,
+    '_space_size': _is_recursive,
+    '_encode': lambda n: len(n.args.args) == 3,
+}
